@@ -206,6 +206,17 @@ func (r *rewriter) rewriteCall(c *ast.CallExpr) {
 			return
 		}
 	}
+	if r.rules["intraclient"] {
+		// adminservice.NewAdminServiceClient(conn) -> verifrt.Hooked("intra-admin-client", adminservice.NewAdminServiceClient, conn)
+		if sel, ok := c.Fun.(*ast.SelectorExpr); ok && sel.Sel.Name == "NewAdminServiceClient" && len(c.Args) == 1 {
+			if id, ok := sel.X.(*ast.Ident); ok && id.Name == "adminservice" {
+				c.Args = []ast.Expr{&ast.BasicLit{Kind: token.STRING, Value: strconv.Quote("intra-admin-client")}, c.Fun, c.Args[0]}
+				c.Fun = rt("Hooked")
+				r.used = true
+				return
+			}
+		}
+	}
 	if r.rules["net"] {
 		if sel, ok := c.Fun.(*ast.SelectorExpr); ok {
 			if id, ok := sel.X.(*ast.Ident); ok && id.Name == "net" {
